@@ -263,6 +263,9 @@ func Drive(w *ev.Writer, o Opts) error {
 	if err := driveMutations(w, r, nm, o.Seed*31+int64(o.Shard)); err != nil {
 		return err
 	}
+	if err := driveBagSweep(w, r, o.Tier == "thorough", o.Seed, o.Shard, o.Shards); err != nil {
+		return err
+	}
 	wg.Wait()
 	for _, m := range issued {
 		w.Emit(m)
